@@ -111,10 +111,10 @@ func (verifNoMethods) Assign(context.Context, string) jrpc2.Handler { return nil
 // accepter ends with a closing error, another error, or blocks until the
 // context ends.
 func Harness_C20_loop() {
+	// 0..2 connections in both tiers: with the per-connection choices
+	// (Assigner fails / context ends during init) three connections exceeded
+	// the path budget at delay bound 3
 	maxc := 3
-	if thorough() {
-		maxc = 4
-	}
 	nconn := nondetChoice("connections", maxc)
 	log := &verifSvcLog{}
 	acc := &verifAccepter{}
